@@ -90,6 +90,8 @@ pub fn exercise(text: &str) -> Option<(String, String)> {
     // a note without a heading (no title) that includes `n`: with a text that includes `bare` or itself, `n` sits in
     // a cycle of block references none of whose notes has a title
     st.insert("bare".to_string(), "[back](n)\n".to_string());
+    // a note nobody includes whose only heading has no text: an outline path with an empty search text
+    st.insert("solo".to_string(), "#\n\nsolo text\n".to_string());
     // loading
     let mut db_opt: Option<Database> = None;
     if let Some(p) = run("load (Database::new)", &mut || db_opt = Some(Database::new(st.clone(), true, MarkdownOptions::default()))) {
